@@ -5,14 +5,18 @@ import vlib
 MANIFEST = {
     "text": ("Theorems over the hand-written model of datacodec (model/CqlWire.v, CqlContainers.v): decode (encode x) = x for every scalar and every value of its "
              "canonical intermediate type (all of Z for varint, all int64 for vints ...), and by induction on the type tree for lists, sets, maps, tuples and UDTs "
-             "nested to ANY depth and width, every protocol version, NULLs at any position. The Go-representation layer (which Go types are accepted; extractors / "
-             "injectors for slices, arrays, maps, structs with cassandra tags, pointers, interface{}) is not modelled in Gallina (C11_representations_partial): it is "
-             "covered by directed search on the implementation - every (type, accepted representation, boundary value) and seeded type trees up to depth 4 are "
+             "nested to ANY depth and width, every protocol version, NULLs at any position. The Go-representation layer of the container codecs (extractors, injectors, "
+             "reflection helpers, PreferredGoType; slices, arrays, []interface{}, maps, map[string]interface{}, structs with cassandra tags and case folding, pointers, "
+             "interface{}) is modelled in model/CqlGoVal.v: Encode from every modelled representation equals the abstract encoder on the denoted value "
+             "(C11_representations_encode); encode from any representation then decode into any destination that can hold the value returns a Go value denoting the same CQL "
+             "value, by induction on the type tree (C11_representations_decode_fitting; map destinations and UDT-by-name destinations only by correspondence). It is tied to "
+             "the code Go value by Go value incl. destination reuse, and exercised by directed search on the implementation - every (type, accepted representation, boundary value) and seeded type trees up to depth 4 are "
              "round-tripped through the public Codec API into the same representation and into an untyped destination (preferred Go type), and the model decoder is "
              "compared with the real decoder on the real encoder's bytes inside coqc."),
     "technique": "Rocq proof over a hand-written model + model/code correspondence + directed round trips through the public Codec API",
     "design_ref": "3 C11, 8.4",
-    "note": ("Partial in one respect: the Go-representation layer is exercised on the implementation, not modelled (DESIGN.md 8.4 GoVal universe not built). Numeric "
+    "note": ("Partial in one respect: the representation-level decode theorem covers leaf, slice, array, interface{}, tuple-struct and positional UDT destinations; map and "
+             "UDT-by-name destinations are compared with the code but not covered by the theorem. Numeric "
              "conversions between Go integer types are C13's subject. Observations not filed: a tuple/UDT type without fields encodes its only value to NULL; "
              "CqlDecimal{Unscaled:nil} round-trips to Unscaled = 0."),
 }
@@ -30,7 +34,7 @@ def check(run):
     recs = []
     if "harness" not in fails:
         n = 2500 if run.tier == "thorough" else 400
-        for sub, args in (("directed", cc.directed_args(run.tier)), ("gen", [n])):
+        for sub, args in (("directed", cc.directed_args(run.tier)), ("gen", [n]), ("reuse", [600 if run.tier == "thorough" else 200])):
             rc, rs, err = cc.harness_records(sub, args, run.seed)
             if rc != 0:
                 broken.append("harness cql %s failed rc=%s: %s" % (sub, rc, err))
@@ -59,18 +63,32 @@ def check(run):
         if r["kind"] == "nan-key" and r["enc_class"] == "ok" and not r["rt_equal"]:
             findings.append(dict(cc.slim(r), kind="nan-map-key-value-lost",
                                  what="map<double,int> from Go map[float64]... {NaN: 5}: the value is encoded as NULL (%s): mapExtractor looks the key up with MapIndex, which never finds a NaN" % r.get("enc_hex", "")))
+    # destination reuse, judged without the model: a slice variable that already holds a value must end up holding exactly the decoded list
+    for r in recs:
+        if r["kind"] == "reuse" and r["gty"].startswith("(GSlice") and (r["type_cql"].startswith("list<") or r["type_cql"].startswith("set<")):
+            evaluations += 1
+            bad_reuse = (r["class"] != "ok") or (r["input"] == "value" and r.get("result_abs") != r["val_coq"]) or (r["input"] != "value" and not r.get("was_null"))
+            if bad_reuse:
+                findings.append({"kind": "destination-reuse", "type_cql": r["type_cql"], "rep": r["rep"], "ver": r["ver"], "prefilled": r["prefill_g"][:400], "input": r["input"],
+                                 "decoded_bytes": r.get("hex", ""), "expected": r["val_coq"][:400], "observed": r.get("result_abs", r["class"])[:400],
+                                 "what": "%s into a %s variable already holding %s: expected %s, got %s" % (r["type_cql"], r["rep"], r["prefill_g"][:120], r["val_coq"][:120], str(r.get("result_abs", r["class"]))[:120])})
     # ---- correspondence: the model decoder on the implementation's bytes = the implementation's decoded value; model round trip on the same value
     usable = [r for r in cases if cc.usable(r) and r["enc_class"] in ("ok", "null")]
     ccases = []
     for r in usable:
         src = '(Some (hx "%s"))' % r["enc_hex"] if r["enc_class"] == "ok" else "None"
         ccases.append((r["id"], "dec_agrees %d %s %s %s" % (r["ver"], r["type_coq"], src, cc.dobs(r["dec_class"], r["dec_coq"]))))
+    # ---- Go-representation layer (model/CqlGoVal.v): Encode from the representation, Decode into the same representation and into
+    #      interface{}, and destination reuse (a pre-filled variable of the same Go type), compared Go value by Go value
+    repc = cc.rep_cases(usable)
+    reuse = cc.reuse_cases(recs)
+    ccases += repc + reuse
     if model_ok and ccases:
         ok, bad, log = cc.eval_cases("Cases_C11", [], ccases)
         if not ok:
             broken.append("correspondence file does not evaluate: " + log[-400:])
         if bad:
-            broken.append("correspondence: model_decode disagrees with the compiled decoder on cases %s" % bad[:20])
+            broken.append("correspondence: the model (abstract decoder / Go-representation layer) disagrees with the compiled code on cases %s" % bad[:20])
     run.coverage["evaluations"] = evaluations + len(ccases)
     run.coverage["traces_validated_against_impl"] = len(ccases)
     run.coverage["distinct_nontrivial"] = len(nontrivial)
@@ -86,8 +104,9 @@ def check(run):
                                           "distinct_top_level_representations": len(reps)}
     run.coverage["samples"] = [cc.slim(r, ("id", "ver", "type_cql", "rep", "val_coq", "enc_hex", "dec_coq")) for r in usable[:5]]
     run.coverage["exhaustive"] = False
-    run.coverage["not_modelled"] = ["Go-representation layer (extractors.go, injectors.go, reflection.go, convertTo*/convertFrom* type switches): exercised on the implementation only",
-                                    "typed map[K]V destinations merging entries with equal keys", "array destinations shorter / longer than the wire count"]
+    run.coverage["representation_layer_cases"] = {"encode_decode": len(repc), "destination_reuse": len(reuse)}
+    run.coverage["not_modelled"] = ["convertTo*/convertFrom* type switches of the scalar codecs (C13)", "struct used as a CQL map (map.go case reflect.Struct)", "slice capacity",
+                                    "decode theorem C11_representations_decode_fitting does not cover map destinations and UDT into struct-by-name / map[string]V (these are covered by the correspondence run)"]
     if run.tier == "thorough":
         rc, out = vlib.coqchk("C11")
         run.note("coqchk rc=%s %s" % (rc, out.strip()[-200:]))
